@@ -196,10 +196,24 @@ def attr_model(attrs):
     return d
 
 
+def _rename(p, old, new):
+    """Rename identifier `old` in a generated parameter (tokens and model, nested parameters too)."""
+    p["tokens"] = [new if t == old else t for t in p["tokens"]]
+    p["cxx_tokens"] = [new if t == old else t for t in p["cxx_tokens"]]
+
+    def rec(m):
+        if m.get("name") == old:
+            m["name"] = new
+        for q in m.get("params") or []:
+            rec(q)
+    rec(p["model"])
+
+
 @st.composite
 def variable(draw, depth=0, named=True, allow_attrs=True, allow_array=True, in_param=False):
     """A variable / parameter declaration."""
-    toks, canon, kind = draw(base_type(allow_void=True))
+    # (parameters of a function pointer: no std::vector, callbacks take plain types)
+    toks, canon, kind = draw(base_type(allow_void=True, allow_vector=(depth == 0)))
     spec, const, vol = draw(cv_spec(toks))
     ops = draw(ptr_chain())
     if canon == "void" and (not ops or ops[0][0] == "&"):
@@ -215,6 +229,15 @@ def variable(draw, depth=0, named=True, allow_attrs=True, allow_array=True, in_p
         nparam = draw(st.integers(0, 2))
         ps = [draw(variable(depth=1, named=draw(st.booleans()), allow_attrs=False, allow_array=False,
                             in_param=True)) for _ in range(nparam)]
+        seen_names = set()
+        for j, p_ in enumerate(ps):
+            nm = p_["model"].get("name")
+            if nm is not None and nm in seen_names:
+                new = "%s_%d" % (nm, j)
+                _rename(p_, nm, new)
+                nm = new
+            if nm:
+                seen_names.add(nm)
         ops = [o for o in ops if o[0] != "&"]  # result type of the pointed-to function
         out = spec + ptr_tokens(ops) + ["(", "*", name, ")", "("]
         for i, p in enumerate(ps):
@@ -269,9 +292,7 @@ def func(draw, context="library"):
         if nm in used:
             # rename duplicate parameter names
             new = "%s%d" % (nm, i)
-            p["tokens"] = [new if t == nm else t for t in p["tokens"]]
-            p["cxx_tokens"] = [new if t == nm else t for t in p["cxx_tokens"]]
-            p["model"]["name"] = new
+            _rename(p, nm, new)
             nm = new
         if nm:
             used.add(nm)
@@ -301,6 +322,13 @@ def func(draw, context="library"):
         out += p["tokens"]
         cxx += p["cxx_tokens"]
         if i in keep:
+            # '+flag = 3' reads as the attribute form +name=scalar (documented ambiguity): a
+            # defaulted parameter keeps its attributes only if the last one has the (value) form
+            at = [t for t in p["tokens"] if t.startswith("+")]
+            if at and not at[-1].endswith(")"):
+                p["tokens"] = [t for t in p["tokens"] if not t.startswith("+")]
+                p["model"]["attrs"] = {}
+                out = out[:len(out) - len(at)]
             out += ["=", keep[i]]
             cxx += ["=", keep[i]]
             p["model"]["init"] = keep[i]
